@@ -50,6 +50,9 @@ def write_overlay():
             rel = os.path.relpath(src, root)
             repl[os.path.join(REPO, rel)] = src
     os.makedirs(BUILD, exist_ok=True)
+    inst = instrument_pool()
+    if inst:
+        repl[os.path.join(REPO, "pkg", "pool", "lite_pool.go")] = inst
     path = os.path.join(BUILD, "overlay.json" if REPO == "/repo" else "overlay-%s.json" % hashlib.sha1(REPO.encode()).hexdigest()[:8])
     data = json.dumps({"Replace": repl}, indent=1, sort_keys=True)
     tmp = path + ".%d" % os.getpid()
@@ -57,6 +60,33 @@ def write_overlay():
         fh.write(data)
     os.replace(tmp, path)
     return path
+
+
+def instrument_pool():
+    """The working tree's pkg/pool/lite_pool.go with two calls added: Get notes what it hands out, Put notes what it is
+    given (zz_verif_monitor.go keeps the set of checked-out objects).  Regenerated on every run from the file as it is
+    now; when the two method bodies are not found as expected the monitor is left out (nothing is claimed then)."""
+    src = os.path.join(REPO, "pkg", "pool", "lite_pool.go")
+    try:
+        txt = open(src).read()
+    except OSError:
+        return None
+    g = re.search(r"func \(p \*Pool\[T\]\) Get\(\) T \{\n(.*?)\n\}\n", txt, re.S)
+    u = re.search(r"func \(p \*Pool\[T\]\) Put\(v T\) \{\n", txt)
+    if not g or not u or "return p.pool.Get().(T)" not in g.group(1):
+        return None
+    body = g.group(1).replace("return p.pool.Get().(T)", "verifV := p.pool.Get().(T)\n\tverifNoteGet(any(verifV))\n\treturn verifV")
+    out = txt[:g.start(1)] + body + txt[g.end(1):]
+    u = re.search(r"func \(p \*Pool\[T\]\) Put\(v T\) \{\n", out)
+    out = out[:u.end()] + "\tverifNotePut(any(v))\n" + out[u.end():]
+    dst_dir = os.path.join(BUILD, "gen-" + hashlib.sha1(REPO.encode()).hexdigest()[:8])
+    os.makedirs(dst_dir, exist_ok=True)
+    dst = os.path.join(dst_dir, "lite_pool.go")
+    tmp = dst + ".%d" % os.getpid()
+    with open(tmp, "w") as fh:
+        fh.write(out)
+    os.replace(tmp, dst)
+    return dst
 
 
 def gen_snapshot(cfg, failed):
@@ -322,6 +352,12 @@ def main():
         if os.path.exists(os.path.join(work, "meta.json")):
             try:
                 meta = json.load(open(os.path.join(work, "meta.json")))
+                if meta.get("pool_releases_of_objects_not_checked_out", 0) > 0:
+                    # the models take "a scratch object has one holder at a time" for granted (Olla.Props.C02.pool_exclusive_of_discipline
+                    # derives it from "nobody releases what it does not hold"); the run saw a release that breaks it
+                    tie_errors.append(("pool-discipline (assumption of Olla.Props.C02.pool_exclusive_of_discipline)",
+                                       "%d release(s) of a pooled object that was not checked out; first: %s" %
+                                       (meta["pool_releases_of_objects_not_checked_out"], meta.get("pool_first_bad_release", ""))))
             except Exception:
                 meta = {}
         if os.path.exists(cases_path):
